@@ -10,6 +10,14 @@ DRV = ["drv_ep.c"]
 EP_METHD = {"basic": "-DEP_METHD=BASIC;LWNAF;COMBS;INTER;SSWUM", "jacob": "-DEP_METHD=JACOB;LWNAF;COMBS;INTER;SSWUM"}
 
 
+# ep_mul_monty blinds its two ladder registers with ep_blind, i.e. multiplies by a RANDOM field element; over an
+# 8-bit field that element is 0 with probability 1/p and the run degenerates - an artefact of the tiny field (2^-256
+# at full width), not of the algorithm, and not repeatable.  The ladder is therefore checked at full width (B2) and
+# in the design-level model (ScalarMul); in the tiny worlds it runs in a separate build (RAND=CALL) whose driver
+# supplies a deterministic source of non-zero bytes (see drv_ep.c).
+TINY_VAR = [op for op in gen_ep.MUL_VAR if op != "ep_mul_monty"]
+
+
 def nontrivial(e):
     """Non-trivial: a finite point is involved and (for multiplications) a scalar other than 0, +-1."""
     if e.get("op") in ("curve_probe", "restart"):
@@ -96,8 +104,10 @@ def full_width(curves, rng, quick, grp_scale=1.0, mul_scale=1.0):
 
 # ------------------------------------------------------------------ tiny worlds (B1)
 def tiny(worlds, rng, quick):
-    grp, mul = [], []
+    """Returns a list of (world, group-law cases, multiplication cases)."""
+    out = []
     for cv in worlds:
+        grp, mul = [], []
         n = cv.n
         # ---- every ordered pair of points x {add, sub} (+ explicit systems on a sample)
         allm = list(range(n))
@@ -118,9 +128,11 @@ def tiny(worlds, rng, quick):
         g += gen_ep.cmp_cases(cv, rng, sample[:300 if quick else 6000] + [(a, a) for a in allm[:60]])
         g += gen_ep.offcurve_cases(cv, rng, 40 if quick else 400)
         if cv.h > 1 and cv.points:
+            # cofactor > 1: the group law on ALL points of the curve, not only the prime-order subgroup
             pts = [None] + cv.points
             pp = [(P, Q) for P in pts for Q in pts]
-            g += gen_ep.group_cases_xy(cv, rng, pp if not quick else rng.sample(pp, 300))
+            g += gen_ep.group_cases_xy(cv, rng, pp if not quick else rng.sample(pp, 300), ops=("ep_add",))
+            g += gen_ep.group_cases_xy(cv, rng, rng.sample(pp, 300 if quick else 8000))
         rng.shuffle(g)
         grp += g
         # ---- every k in [-2n, 3n] and 2^j, 2^j +- 1 x every routine, on G and on other points
@@ -137,11 +149,11 @@ def tiny(worlds, rng, quick):
             def ks_for(op, ks=ks):
                 return ks if not quick else rng.sample(ks, 90)
             m += gen_ep.mul_cases(cv, rng, ks_for, [pm], fixed_point=pt,
-                                  ops=gen_ep.MUL_VAR + gen_ep.MUL_FIX + ["ep_mul_dig"] + (["ep_mul_gen"] if pi == 0 else []))
+                                  ops=TINY_VAR + gen_ep.MUL_FIX + ["ep_mul_dig"] + (["ep_mul_gen"] if pi == 0 else []))
         # every point x a corner set of scalars x every variable-base routine
         corners = [0, 1, -1, 2, 3, n - 1, n, n + 1, 2 * n - 1, 2 * n + 1, -n, -(n + 1), n // 2, 3 * n]
         for a in (allm if not quick else rng.sample(allm, 12)):
-            for op in gen_ep.MUL_VAR:
+            for op in TINY_VAR:
                 for k in (corners if not quick else rng.sample(corners, 4)):
                     m.append("%s %s %d %s %s" % (op, c, rng.choice([0, 1]), gen_ep.point_token(cv, a, cv.sys, rng), gen_ep.hx(k)))
         small = list(range(-n - 2, 2 * n + 3))
@@ -157,7 +169,30 @@ def tiny(worlds, rng, quick):
         m += gen_ep.simdig_cases(cv, rng, list(range(1, n)), range(1, 5), per_count=10 if quick else 150)
         rng.shuffle(m)
         mul += m
-    return grp, mul
+        out.append((cv, grp, mul))
+    return out
+
+
+def tiny_monty(worlds, rng, quick):
+    """ep_mul_monty in the tiny worlds (RAND=CALL build): every k in [-2n, 3n], 2^j, 2^j +- 1 on G and other points."""
+    cases = []
+    for cv in worlds:
+        n = cv.n
+        ks = list(range(-2 * n, 3 * n + 1))
+        for j in range(1, cv.bnbits):
+            ks += [v for v in ((1 << j) - 1, 1 << j, (1 << j) + 1, -((1 << j) + 1)) if abs(v).bit_length() <= cv.bnbits]
+        ks = sorted(set(ks))
+        for pi in range(1 if quick else 4):
+            pm = 1 if pi == 0 else rng.randrange(2, n)
+            pt = gen_ep.point_token(cv, pm, cv.sys, rng, force="a" if pi < 2 else "z")
+            cases += gen_ep.mul_cases(cv, rng, lambda op: ks if not quick else rng.sample(ks, 150), [pm],
+                                      fixed_point=pt, ops=["ep_mul_monty"])
+        for a in (range(n) if not quick else rng.sample(range(n), 20)):
+            for k in (0, 1, -1, 2, n - 1, n, n + 1, -n, 2 * n + 1, rng.randrange(n)):
+                cases.append("ep_mul_monty %s %d %s %s" % (cv.spec, rng.choice([0, 1]),
+                                                           gen_ep.point_token(cv, a, cv.sys, rng), gen_ep.hx(k)))
+    rng.shuffle(cases)
+    return cases
 
 
 def run(tier, seed):
@@ -197,9 +232,16 @@ def run(tier, seed):
     if len(worlds) < 3:
         raise core.InfraError("tiny world construction failed")
     cover["w8p8"] = [w.name for w in worlds]
-    grp, mul = tiny(worlds, rng, quick)
-    part("w8p8-grp", "w8p8", grp)
-    part("w8p8-mul", "w8p8", mul)
+    parts = tiny(worlds, rng, quick)
+    if quick:
+        part("w8p8-grp", "w8p8", sum((g for _, g, _ in parts), []))
+        part("w8p8-mul", "w8p8", sum((m for _, _, m in parts), []))
+    else:
+        for i, (cv, g, m) in enumerate(parts):      # exhaustive: one pass per world keeps the shards small
+            part("w8p8-grp-%d" % i, "w8p8", g)
+            part("w8p8-mul-%d" % i, "w8p8", m)
+    bdir = core.build_relic("w8p8", extra_args=["-DRAND=CALL"], tag="w8p8-call")
+    part("w8p8-monty", "w8p8", tiny_monty(worlds, rng, quick), bdir=bdir)
     if not quick:
         # ---- other default coordinate systems (affine, Jacobian): full width and tiny
         for sysname, sysid in (("basic", gen_ep.BASIC), ("jacob", gen_ep.JACOB)):
@@ -211,9 +253,9 @@ def run(tier, seed):
             part(cfg + "-mul", cfg, mul, heavy=True)
             bdir = core.build_relic("w8p8", extra_args=[EP_METHD[sysname]], tag="w8p8-" + sysname)
             ws = gen_ep.tiny_worlds(sys=sysid)
-            grp, mul = tiny(ws, rng, True)
-            part("w8p8-%s-grp" % sysname, "w8p8", grp, bdir=bdir)
-            part("w8p8-%s-mul" % sysname, "w8p8", mul, bdir=bdir)
+            parts = tiny(ws, rng, True)
+            part("w8p8-%s-grp" % sysname, "w8p8", sum((g for _, g, _ in parts), []), bdir=bdir)
+            part("w8p8-%s-mul" % sysname, "w8p8", sum((m for _, _, m in parts), []), bdir=bdir)
         # ---- BLS12-381 (pairing-friendly, cofactor > 1, GLV)
         cs = discover("b12-381", wd)
         cover["b12-381"] = [c.spec for c in cs]
